@@ -83,7 +83,7 @@ def expand_catalogue(path):
             r.update({"key": ex(s["key"]), "val": ex(s["val"]), "lp": s["lp"], "min": s.get("min", 0), "max": s.get("max", 0)})
         elif k == "struct":
             r.update({"code": code(s.get("code")), "f": [ex(f) for f in s["f"]]})
-        elif k == "opt":
+        elif k in ("opt", "eptr"):
             r["t"] = ex(s["t"])
         elif k == "iface":
             r.update({"w": s["w"], "alts": [{"c": a["c"], "t": ex(a["t"])} for a in s["alts"]]})
@@ -97,3 +97,382 @@ def expand_catalogue(path):
         return done[name]
 
     return [{"name": t["name"], "go": t.get("go", ""), "s": copy.deepcopy(entry(t["name"]))} for t in raw]
+
+
+# ------------------------------------------------------------------------------------------------ helpers
+
+MC_CFG = """SPECIFICATION Spec
+CONSTANTS Alphabet = {0, 1, 2, 255}
+ MaxLen = %d
+ Sids = {%s}
+ Emit = %s
+ ValDepth = %d
+INVARIANTS BytesGood ValuesGood
+"""
+TRACE_CFG = "INIT TInit\nNEXT TNext\nPOSTCONDITION Accepted\n"
+
+# which property a class of disagreement belongs to (valid = the model accepts the input / value)
+DEC_PROPS = {
+    "panic": lambda valid: {"C02"} | ({"C01"} if valid else set()),
+    "hang": lambda valid: {"C02"},
+    "over-consumed": lambda valid: {"C02"},
+    "alloc": lambda valid: {"C02"},
+    "accepts-invalid": lambda valid: {"C03"},
+    "noncanonical-accepted": lambda valid: {"C03"},
+    "rejects-valid": lambda valid: {"C01"},
+    "wrong-length": lambda valid: {"C01", "C03"},
+    "wrong-value": lambda valid: {"C01"},
+}
+ENC_PROPS = {
+    "panic": lambda valid: {"C01"},
+    "accepts-invalid": lambda valid: {"C03"},
+    "rejects-valid": lambda valid: {"C01", "C03"},
+    "wrong-bytes": lambda valid: {"C03"},
+    "order-dependent": lambda valid: {"C01"},
+    "pointer-vs-value": lambda valid: {"C01"},
+}
+# record flow: clause names of WireTrace -> (direction, class)
+RT_CLASS = {"roundtrip-panic": ("decode", "panic"), "roundtrip-rejected": ("decode", "rejects-valid"),
+            "roundtrip-length": ("decode", "wrong-length"), "roundtrip-value": ("decode", "wrong-value")}
+
+
+def props_of(sig, valid):
+    _, direction, _kind, cls = sig.split(":", 3)
+    table = DEC_PROPS if direction == "decode" else ENC_PROPS
+    return table.get(cls, lambda v: {"C01", "C02", "C03"})(valid)
+
+
+def prepare(ctx):
+    """expanded catalogue for TLC and the harness; cross-check with the types the harness registers"""
+    full = os.path.join(ctx.out, "catalogue.full.json")
+    cat = expand_catalogue(os.path.join(ctx.spec(SUB), "catalogue.json"))
+    if not os.path.exists(full):
+        with open(full, "w") as fh:
+            json.dump(cat, fh)
+        p = run_h(ctx, ["w1-names"])
+        names = p.stdout.split()
+        if p.returncode != 0 or sorted(names) != sorted(c["name"] for c in cat):
+            raise Inconclusive("catalogue.json and the harness disagree on the type names: %s" % (
+                sorted(set(names) ^ set(c["name"] for c in cat)),))
+    return full, cat
+
+
+def groups(n, k):
+    """sids 1..n dealt round-robin into k groups"""
+    return [[i for i in range(1, n + 1) if i % k == j] for j in range(k)]
+
+
+def gen_rows(ctx, info=None):
+    """run WireMC (exhaustive check of the model + export of its expectations); returns the rows files"""
+    marker = os.path.join(ctx.out, "rows.done.json")
+    if os.path.exists(marker):
+        return json.load(open(marker))
+    full, cat = prepare(ctx)
+    maxlen, depth = (7, 4) if ctx.thorough else (6, 3)
+    procs, workers = 4, 4
+    sd = ctx.spec(SUB)
+
+    def one(arg):
+        j, sids = arg
+        cfg = MC_CFG % (maxlen, ", ".join(str(i) for i in sids), "TRUE", depth)
+        return j, tlc.run(sd, "WireMC", cfg, extra_files={"catalogue.json": full}, workers=workers,
+                          timeout=3000, heap="3g")
+
+    with ThreadPoolExecutor(max_workers=procs) as ex:
+        results = list(ex.map(one, enumerate(groups(len(cat), procs))))
+    files, nrows, nvrows, states = [], 0, 0, 0
+    for j, r in results:
+        failed = sorted(set(p for t, p in r.prints if t == "FAILED"))
+        if not r.ok():
+            save = os.path.join(ctx.out, "WireMC.%d.out" % j)
+            with open(save, "w") as fh:
+                fh.write("\n".join(l for l in r.out.splitlines() if not l.startswith('<<"ROW"') and not l.startswith('<<"VROW"')))
+            raise Inconclusive("TLC on WireMC (part %d): %s %s %s (the MODEL breaks its own property; output: %s)" % (
+                j, r.status, r.violated or "", failed, save))
+        ctx.add_tlc(r)
+        states += r.distinct
+        path = os.path.join(ctx.out, "rows.%02d.ndjson" % j)
+        with open(path, "w") as fh:
+            for t, p in r.prints:
+                if t == "ROW":
+                    nrows += 1
+                    fh.write(p + "\n")
+                elif t == "VROW":
+                    nvrows += 1
+                    fh.write(p + "\n")
+        files.append(path)
+    res = {"files": files, "rows": nrows, "vrows": nvrows, "states": states, "maxlen": maxlen, "valdepth": depth,
+           "schemas": len(cat), "wall": round(max(r.wall for _, r in results), 1)}
+    with open(marker, "w") as fh:
+        json.dump(res, fh)
+    return res
+
+
+class Base(Unit):
+    def __init__(self, prop=None):
+        self.prop = prop          # None = report every class; "C01" | "C02" | "C03" = only that property's classes
+        self.info = {}
+
+    def summary(self):
+        return json.dumps(self.info)
+
+    def wanted(self, sig, valid):
+        return self.prop is None or self.prop in props_of(sig, valid)
+
+    def report(self, ctx, sig, what, replay_obj):
+        if any(v["sig"] == sig for v in ctx.violations):
+            return
+        ctx.violation(self.name, sig, what, replay_obj)
+
+
+class Model(Base):
+    """TLC: exhaustive small-scope check of Wire.tla's own properties, and the export of its expectations"""
+    name = "Wire:model"
+
+    def run(self, ctx):
+        res = gen_rows(ctx)
+        self.info = {k: res[k] for k in ("schemas", "maxlen", "valdepth", "states", "rows", "vrows", "wall")}
+        ctx.bump("tlc_exhaustive_runs")
+        ctx.bump("model_states_schema_x_bytestring", res["rows"])
+        ctx.bump("model_values_enumerated", res["vrows"])
+
+
+def split_lines(path, parts, prefix):
+    outs = [open("%s.%02d.ndjson" % (prefix, i), "w") for i in range(parts)]
+    with open(path) as fh:
+        for n, line in enumerate(fh):
+            outs[n % parts].write(line)
+    for o in outs:
+        o.close()
+    return [o.name for o in outs]
+
+
+class Table(Base):
+    """model -> code"""
+    name = "Wire:table"
+
+    def run(self, ctx):
+        res = gen_rows(ctx)
+        full, cat = prepare(ctx)
+        pieces = []
+        for j, f in enumerate(res["files"]):
+            pieces += split_lines(f, PAR // len(res["files"]) or 1, os.path.join(ctx.out, "tab.%d" % j))
+
+        def one(path):
+            rep = path.replace(".ndjson", ".report.json")
+            p = run_h(ctx, ["w1-table", path, "-cat", full, "-out", rep], timeout=3000)
+            return path, rep, p
+
+        with ThreadPoolExecutor(max_workers=PAR) as ex:
+            results = list(ex.map(one, pieces))
+        tot = {"rows": 0, "vrows": 0, "decodes": 0, "encodes": 0, "reencoded": 0, "skipped": 0, "untypable": 0,
+               "mismatch_count": 0, "max_alloc": 0, "accepted_plain": 0, "accepted_validating": 0}
+        merged = {}
+        for path, rep, p in results:
+            if p.returncode == 4 and "HANG" in (p.stderr or ""):
+                row = p.stderr.split("HANG", 1)[1].strip()
+                self.report(ctx, "serix:decode:any:hang", "a call of the real code did not return within 20 s; row: %s" % row[:300],
+                            {"kind": "hang", "row": row})
+                ctx.inconclusive.append("%s: rows after the hanging one in %s were not checked" % (self.name, os.path.basename(path)))
+                continue
+            if p.returncode != 0:
+                raise Inconclusive("harness w1-table died on %s: %s" % (os.path.basename(path), (p.stderr or p.stdout)[-1500:]))
+            r = json.load(open(rep))
+            for k in ("rows", "vrows", "decodes", "encodes", "reencoded", "skipped", "untypable", "mismatch_count"):
+                tot[k] += r[k]
+            tot["accepted_plain"] += r["accepted"][0]
+            tot["accepted_validating"] += r["accepted"][1]
+            tot["max_alloc"] = max(tot["max_alloc"], r["max_alloc"])
+            for m in r["mismatches"] or []:
+                key = (m["sig"], m["wantok"])
+                if key in merged:
+                    merged[key]["count"] += m["count"]
+                else:
+                    merged[key] = m
+        if tot["rows"] != res["rows"] or tot["vrows"] != res["vrows"]:
+            raise Inconclusive("expectations exported %d+%d, compared %d+%d" % (res["rows"], res["vrows"], tot["rows"], tot["vrows"]))
+        classes = {}
+        for (sig, valid), m in sorted(merged.items(), key=lambda kv: (kv[0][0], not kv[0][1])):
+            if not self.wanted(sig, valid):
+                continue
+            classes[sig] = classes.get(sig, 0) + m["count"]
+            self.report(ctx, sig, "%s  [%d inputs in this class, flow %s]" % (m["what"], m["count"], self.name),
+                        {"kind": "row", "row": m["row"], "s": m["s"], "mode": m["mode"], "want": m["want"], "got": m["got"],
+                         "count": m["count"]})
+        if tot["skipped"] and not ctx.violations:
+            raise Inconclusive("%d rows skipped without a violation on record" % tot["skipped"])
+        self.info = dict(tot)
+        self.info["classes"] = classes
+        ctx.replayed += tot["rows"] + tot["vrows"]
+        ctx.bump("real_decode_calls_compared_with_model", tot["decodes"])
+        ctx.bump("real_encode_calls_compared_with_model", tot["encodes"])
+        ctx.bump("validated_accepts_reencoded", tot["reencoded"])
+        ctx.bump("max_alloc_bytes_per_decode", tot["max_alloc"])
+        with open(res["files"][0]) as fh:
+            ctx.sample({"unit": self.name, "flow": "model->code (expectation exported by TLC for one byte string)",
+                        "row": json.loads(fh.readline())})
+
+    def replay(self, ctx, data):
+        full, _ = prepare(ctx)
+        if data.get("kind") != "row":
+            print(data.get("row"))
+            return 1
+        path = os.path.join(ctx.out, "replay.rows.ndjson")
+        with open(path, "w") as fh:
+            fh.write(json.dumps(data["row"]) + "\n")
+        rep = os.path.join(ctx.out, "replay.report.json")
+        p = run_h(ctx, ["w1-table", path, "-cat", full, "-out", rep], timeout=120)
+        if p.returncode != 0:
+            print("harness failed:", p.stderr or p.stdout)
+            return 1 if "HANG" in (p.stderr or "") else 2
+        r = json.load(open(rep))
+        hit = [m for m in r["mismatches"] or [] if m["sig"] == data["sig"]]
+        for m in r["mismatches"] or []:
+            print("still disagrees [%s]: %s" % (m["sig"], m["what"]))
+        if hit:
+            return 1
+        if r["mismatches"]:
+            return 1
+        print("the real code now agrees with the model on this row")
+        return 0
+
+
+class Records(Base):
+    """code -> model"""
+    name = "Wire:records"
+
+    def run(self, ctx):
+        full, cat = prepare(ctx)
+        kinds = {c["name"]: c["s"]["k"] for c in cat}
+        n = 50000 if ctx.thorough else 2500
+        prefix = os.path.join(ctx.out, "rec")
+        parts = PAR * (4 if ctx.thorough else 1)
+        p = run_h(ctx, ["w1-record", "-cat", full, "-seed", str(ctx.seed), "-n", str(n), "-out", prefix, "-parts", str(parts)], timeout=3000)
+        if p.returncode == 4 and "HANG" in (p.stderr or ""):
+            self.report(ctx, "serix:decode:any:hang", "a call of the real code did not return within 20 s: %s" % p.stderr[-300:], {"kind": "hang"})
+            raise Inconclusive("recorder stopped at a hanging call")
+        if p.returncode != 0:
+            raise Inconclusive("harness w1-record died: %s" % (p.stderr or p.stdout)[-1500:])
+        written = json.loads(p.stdout)["records"]
+        files = [f for f in ("%s.%02d.ndjson" % (prefix, i) for i in range(parts)) if os.path.getsize(f) > 0]
+        total, bad = validate_records(ctx, files, full)
+        if total != written:
+            raise Inconclusive("records written %d, validated %d" % (written, total))
+        classes = {}
+        for rec, why, want in bad:
+            direction, cls = RT_CLASS.get(why, ("encode" if rec["k"] == "enc" else "decode", why))
+            sig = "serix:%s:%s:%s" % (direction, kinds[rec["s"]], cls)
+            valid = bool(want.get("ok"))
+            if not self.wanted(sig, valid):
+                continue
+            classes[sig] = classes.get(sig, 0) + 1
+            self.report(ctx, sig, describe(rec, why, want) + "  [flow %s]" % self.name,
+                        {"kind": "record", "rec": rec, "why": why, "want": want})
+        self.info = {"values": n, "records": total, "rejected": len(bad), "classes": classes}
+        ctx.validated += total
+        ctx.bump("records_validated_by_tlc", total)
+        ctx.bump("records_rejected", len(bad))
+        with open(files[0]) as fh:
+            ctx.sample({"unit": self.name, "flow": "code->model (records of real Encode/Decode calls judged by Wire.tla)",
+                        "records": [json.loads(next(fh)) for _ in range(2)]})
+
+    def replay(self, ctx, data):
+        full, _ = prepare(ctx)
+        if data.get("kind") != "record":
+            return 1
+        rec = data["rec"]
+        stim = os.path.join(ctx.out, "replay.in.json")
+        with open(stim, "w") as fh:
+            json.dump({k: rec[k] for k in ("k", "s", "m", "v", "b") if k in rec and not (k == "b" and rec["k"] == "enc")}, fh)
+        out = os.path.join(ctx.out, "replay.rec.ndjson")
+        p = run_h(ctx, ["w1-one", stim, "-cat", full, "-out", out], timeout=120)
+        if p.returncode != 0:
+            print("harness failed:", p.stderr or p.stdout)
+            return 2
+        try:
+            _, bad = validate_records(ctx, [out], full)
+        except Inconclusive as e:
+            print(e)
+            return 2
+        for r, why, want in bad:
+            print("still rejected by Wire.tla [%s]: %s" % (why, describe(r, why, want)))
+        if bad:
+            return 1
+        print("accepted by Wire.tla:", open(out).read()[:600])
+        return 0
+
+
+def describe(rec, why, want):
+    mode = "validation" if rec["m"] == 1 else "no-validation"
+    if rec["k"] == "enc":
+        head = "Encode(%s %s) [%s]" % (rec["s"], json.dumps(rec["v"])[:200], mode)
+        got = "gave %s" % (rec["b"] if rec["ok"] else "an error")
+        if why.startswith("roundtrip"):
+            got += ", Decode of these bytes gave %s" % json.dumps(rec.get("rt"))[:300]
+    else:
+        head = "Decode(%s) into %s [%s, mutation %s]" % (rec["b"], rec["s"], mode, rec.get("src"))
+        got = ("panicked: %s" % rec.get("msg")) if rec.get("panic") else (
+            "gave %s, n=%d, alloc=%d" % (json.dumps(rec.get("v"))[:200] if rec["ok"] else "an error", rec["n"], rec["alloc"]))
+        if why == "noncanonical-accepted":
+            got += "; re-encoded: %s" % json.dumps(rec.get("re"))[:200]
+    return "%s %s; clause broken: %s; the model demands %s" % (head, got, why, json.dumps(want)[:300])
+
+
+def validate_records(ctx, files, full, timeout=3000):
+    """TLC judges every record of every file (one TLC process per file, PAR at a time).
+    returns (records, bad[(rec, why, want)])"""
+    sd = ctx.spec(SUB)
+
+    def one(path):
+        return path, tlc.run(sd, "WireTrace", TRACE_CFG, timeout=timeout, workers=1, heap="2g",
+                             extra_files={"records.ndjson": path, "catalogue.json": full})
+
+    with ThreadPoolExecutor(max_workers=PAR) as ex:
+        results = list(ex.map(one, files))
+    total, bad = 0, []
+    for path, r in results:
+        with open(path) as fh:
+            lines = [x for x in fh.read().splitlines() if x.strip()]
+        depth = [p for t, p in r.prints if t == "DEPTH"]
+        if not r.ok() or not depth or int(depth[0]) != len(lines) + 1:
+            save = os.path.join(ctx.out, os.path.basename(path) + ".tlc.out")
+            with open(save, "w") as fh:
+                fh.write(r.out)
+            raise Inconclusive("record validation of %s did not complete: %s (%s)" % (os.path.basename(path), r.status, save))
+        total += len(lines)
+        ctx.add_tlc(r)
+        for t, p in r.prints:
+            if t == "BAD":
+                b = json.loads(p)
+                bad.append((json.loads(lines[b["l"] - 1]), b["why"], b["want"]))
+    return total, bad
+
+
+ASSUMPTIONS = [
+    "binary serix only (W1); the JSON/map form, the stream helpers, the Deserializer primitives and "
+    "SerializableOrderedMap are W2's",
+    "types: the 61 catalogue types of spec/wire/catalogue.json (every schema constructor, prefix widths 1/2/4/8, "
+    "all array rules); shapes outside the catalogue are not exercised",
+    "byte strings: exhaustive up to length 6 (thorough 7) over {0,1,2,255} per type, beyond that seeded mutations of "
+    "valid encodings; values: small-scope enumeration + seeded random values",
+    "allocation is measured (runtime.MemStats.TotalAlloc per Decode call <= 64 KiB + 16 B per input byte), not proved",
+    "time stamps outside [0, MaxInt64] ns are saturated by documented design and excluded; custom Serializable "
+    "types are opaque bytes; syntactic validators (user callbacks) are not registered",
+    "zero-width element types only under a one-byte length prefix (a wider prefix makes the decoder loop up to "
+    "2^32 times over no input - see report)",
+    "trusted: the harness' conversion between Go values and value trees (harness/sut/wire/tree.go)",
+]
+
+
+def units(ctx):
+    ctx.assumptions += ASSUMPTIONS
+    return [Model(), Table(), Records()]
+
+
+def units_for(ctx, prop):
+    """the units that decide property prop in {"C01","C02","C03"} (binary serix part); each reports only the
+    disagreement classes that belong to that property"""
+    if prop not in ("C01", "C02", "C03"):
+        raise ValueError(prop)
+    ctx.assumptions += ASSUMPTIONS
+    return [Model(prop), Table(prop), Records(prop)]
